@@ -541,11 +541,11 @@ fn blocks_mut(p: &mut Program, f: &mut dyn FnMut(&mut Block) -> bool) -> bool {
 }
 
 #[derive(Clone, Debug)]
-struct Plant {
-    block_no: usize,
-    at: usize, // insert position in the block
-    binder: BId,
-    kind: &'static str,
+pub struct Plant {
+    pub block_no: usize,
+    pub at: usize, // insert position in the block
+    pub binder: BId,
+    pub kind: &'static str,
 }
 
 fn scope_name(k: ScopeKind) -> &'static str {
@@ -558,7 +558,7 @@ fn scope_name(k: ScopeKind) -> &'static str {
     }
 }
 
-fn scope_plants(p: &Program) -> Vec<Plant> {
+pub fn scope_plants(p: &Program) -> Vec<Plant> {
     let mut p2 = p.clone();
     let mut plants = Vec::new();
     let mut block_no = 0usize;
@@ -577,7 +577,7 @@ fn scope_plants(p: &Program) -> Vec<Plant> {
     plants
 }
 
-fn apply_plant(p: &Program, pl: &Plant) -> Program {
+pub fn apply_plant(p: &Program, pl: &Plant) -> Program {
     let mut p2 = p.clone();
     let ty = p2.binders[pl.binder].ty.clone();
     let nb = p2.new_binder("zz", ty, false, BKind::Local);
